@@ -6,8 +6,25 @@ cancellation in _check_for_answers, close_link clearing the pending patterns, "n
 Crazyflie object (built by its real constructor).  threading.Timer is a recording stub: a "timer firing" is the
 contract calling the function the code handed to Timer.
 
-Not decidable by this technique (stated, not claimed): retransmission *at the timeout interval* in real time, and races
-between a firing timer thread and a reply handled on the dispatcher thread (thread interleavings).
+Extension round (second half of the file): sessions reopened through the REAL open_link (driver lookup stubbed), second use of
+one pattern, pending sets of every shape (patterns longer than the packet, nested, absent), and the drivers' side of "nothing
+on a closed link" / "not in a later session" (RadioDriver close / pause / restart / connect, _RadioDriverThread.stop, the
+shared radio instance, UsbDriver send / close).  Thread interleavings are covered ONLY as explicit schedules, each named in
+its contract's `bounded=`: the caller waits for the send lock while the link is closed (`c.lock(..., on_block=...)`: the other
+threads' actions run while this one waits), the reply is dispatched from inside link.send_packet, the reply / a link error
+arrives while another thread is inside the locked region of send_packet (logging call = schedule point), close() / pause()
+arrives while the radio thread is transmitting.
+
+Contracts that state the property and FAIL on the unchanged tree (native replay; kept under thorough_only, reported):
+  session.link-error-then-open_link          _link_error_cb keeps the pending patterns; after open_link an old timer transmits the
+                                             old request on the new link and keeps retrying it there
+  retry.interval-kept                        retries after the first are armed with 0.2 s, not with the request's timeout
+  retry.reply-while-the-timer-thread-re-arms KeyError in the timer thread, _send_lock held for ever
+  send.link-error-while-sending              AttributeError on None in the sending thread, _send_lock held for ever
+
+Not decidable by this technique (stated, not claimed): retransmission *at the timeout interval* in real time (only the interval
+handed to Timer is checked), and thread interleavings other than the explicit schedules above (real pre-emption between two
+arbitrary statements).
 Assumed: threading.Timer calls its function at most once after the interval unless cancelled.
 """
 from pyvc.api import contract
@@ -176,7 +193,7 @@ def close_reopen(c):
     fire_when = c.choice('fire_when', ['while-closed', 'after-reopen'])
     if fire_when == 'after-reopen':
         if how == 'error-only':
-            return          # the application must close before it can reopen through open_link; error-only + reopen is not a session change
+            return          # link error + reopen without close_link: see session.link-error-then-open_link (real open_link)
         link2 = c.ext('link2', attrs={'needs_resending': True})
         c.set(cf, 'link', link2)
     c.call(c.get('fire'))
@@ -245,3 +262,623 @@ def needs_resending_follows(c):
         c.let('confirmed', confirmed)
         c.ensure('session-%d-started' % idx, "raised == 'StopLoop'")
         c.ensure('session-%d-retries-iff-no-safelink' % idx, 'drv.needs_resending is (not confirmed)')
+
+
+# ------------------------------------------------------------------------- extension round: histories, schedules, drivers
+
+URI2 = 'radio://0/80/2M'
+
+
+def fresh_cf_vt(c, needs_resending=True):
+    """like fresh_cf, for histories that go through the real open_link (which starts the dispatcher thread: recorded)"""
+    c.virtual_time()
+    return fresh_cf(c, needs_resending)
+
+
+def reopen(c, cf, needs_resending=True):
+    """the next session, opened the way applications open it: the real open_link; the driver lookup hands out the stub link2.
+    The requests of the new session's own connection set-up are sent on link2 (they are not the old request)."""
+    link2 = c.ext('link2', attrs={'needs_resending': needs_resending})
+    c.let('link2', link2)
+    c.patch('cflib.crtp:get_link_driver', c.ext('get_link_driver', returns={'()': lambda *_a: link2}))
+    c.call((cf, 'open_link'), URI2)
+    c.ensure('next-session-open', 'raised is None and is_same(cf.link, link2)', cls='A')
+    return link2
+
+
+def fire_timers(c, since, label, rounds=2):
+    """every retry timer created since trace index `since` fires (also the ones a cancel came too late for), and so do
+    the timers those firings create, `rounds` times"""
+    for r in range(rounds):
+        c.snapshot('n_timers', "len(sent('Timer'))")
+        n = c.concretize('n_timers')
+        for i in range(since, n):
+            c.snapshot('fire', "sent('Timer')[%d][1][1]" % i)
+            c.call(c.get('fire'))
+            c.ensure('%s-timer-%d-survives' % (label, i), 'raised is None')
+        since = n
+
+
+def fire_nth(c, i):
+    """the i-th timer ever created fires; False (nothing happens) when there is no such timer - the obligations that follow then fail"""
+    c.snapshot('n_timers', "len(sent('Timer'))")
+    if c.concretize('n_timers') <= i:
+        return False
+    c.call(c.snapshot('fire', "sent('Timer')[%d][1][1]" % i))
+    return True
+
+
+NOT_ON = "not any(is_same(e[1][0], pk) for e in sent('%s.send_packet'))"
+
+
+@contract('C10', 'send.link-closed-while-waiting-for-send-lock',
+          SEND + [CF + ':Crazyflie.close_link', CF + ':Crazyflie._link_error_cb', CF + ':Crazyflie._no_answer_do_retry', CF + ':Crazyflie.open_link'],
+          clause='nothing is ever transmitted on a closed link and a request from one session is never transmitted in a later session, also when '
+                 'the sending thread had to wait for the send lock and the link was closed (link error and/or close_link) while it waited: the '
+                 'request is not handed to the closed link, and no retry timer of it transmits it on the link of the next session',
+          bounded='explicit schedule: the send lock is held by a thread that is transmitting; while the caller waits for the lock the link is '
+                  'closed and the holder releases the lock; then the next session is opened and every timer of the request fires (2 rounds)')
+def closed_while_waiting(c):
+    cf, link = fresh_cf_vt(c, True)
+    pk = packet(c)
+    exp = c.ints('exp', 2, 0, 255, kind='tuple')
+    how = c.choice('how', ['error', 'close', 'error-then-close'])
+    c.set(cf, 'state', c.choice('state', [1, 2]))
+    box = []
+
+    def others():
+        lk = box[0]
+        waited = how != 'close' and c.invoke_catch((cf, '_link_error_cb'), 'link died') == 'Deadlock'
+        c.invoke((lk, 'release'))                                 # the transmitting thread is done
+        if waited:
+            c.invoke((cf, '_link_error_cb'), 'link died')        # the error report had to wait for the lock too, and gets it first
+        if how != 'error':
+            c.invoke((cf, 'close_link'))                          # its zero set-point gets the lock before the waiting caller
+    lk = c.lock('send_lock', held=True, on_block=others)
+    box.append(lk)
+    c.set(cf, '_send_lock', lk)
+    c.call((cf, 'send_packet'), pk, exp)
+    c.ensure('returns', 'raised is None')
+    c.ensure('schedule-ran', 'cf.link is None')
+    c.ensure('not-handed-to-the-closed-link', NOT_ON % 'link')
+    c.ensure('send-lock-released', 'not cf._send_lock.locked()')
+    reopen(c, cf)
+    fire_timers(c, 0, 'old')
+    c.ensure('old-request-not-transmitted-in-the-next-session', (NOT_ON % 'link2') + ' and ' + (NOT_ON % 'link'))
+    c.ensure('send-lock-released-at-the-end', 'not cf._send_lock.locked()')
+
+
+def deliver_reply(c, cf, data_expr, name='reply'):
+    """a packet with the request's header and the given data arrives and goes through the packet_received callbacks of the session"""
+    reply = c.new(STK + ':CRTPPacket', c.get('h'), c.snapshot(name + '_data', data_expr))
+    c.let(name, reply)
+    c.call((c.getfield(cf, 'packet_received'), 'call'), reply)
+    return reply
+
+
+def _reopen_history(name, hows, **opts):
+    @contract('C10', name, SEND + [CF + ':Crazyflie.close_link', CF + ':Crazyflie._link_error_cb', CF + ':Crazyflie.open_link',
+                                   CF + ':Crazyflie._no_answer_do_retry', CF + ':Crazyflie._check_for_answers'],
+              clause='a request from one session is never transmitted in a later session: after the link went away (%s) and the application '
+                     'opened the next session with open_link, no retry timer of the old request - fired at any point of its retry chain - '
+                     'transmits it, neither on the old link nor on the new one; and the new session retries its own requests until answered, '
+                     'and only then' % ' / '.join(hows),
+              bounded='0 or 1 retransmissions before the link goes away; every timer of the old request fires after the reopen (2 rounds)', **opts)
+    def k(c):
+        cf, link = fresh_cf_vt(c, True)
+        pk = packet(c)
+        exp = c.ints('exp', 2, 0, 255, kind='tuple')
+        c.call((cf, 'send_packet'), pk, exp)
+        c.require('raised is None')
+        first = 0
+        if c.choice('retransmitted_before', [False, True]):
+            fire_nth(c, 0)
+            c.require("raised is None and len(sent('Timer')) == 2")
+            first = 1
+        how = c.choice('how', hows)
+        c.set(cf, 'state', c.choice('state', [1, 2, 3]))
+        if how != 'close':
+            c.call((cf, '_link_error_cb'), 'link died')
+            c.ensure('error-handled', 'raised is None and cf.link is None')
+        if how != 'error':
+            c.call((cf, 'close_link'))
+            c.ensure('closed', 'raised is None and cf.link is None')
+        c.snapshot('old_tx', "len([e for e in sent('link.send_packet') if is_same(e[1][0], pk)])")
+        reopen(c, cf)
+        fire_timers(c, first, 'old')
+        c.ensure('old-request-not-transmitted-in-the-next-session',
+                 (NOT_ON % 'link2') + " and len([e for e in sent('link.send_packet') if is_same(e[1][0], pk)]) == old_tx")
+        c.ensure('send-lock-released', 'not cf._send_lock.locked()')
+        # the new session: its own request (same expectation as the old one) is retried until answered, and only then
+        pk2 = c.new(STK + ':CRTPPacket', c.get('h'), c.bytes('data2', 2))
+        c.let('pk2', pk2)
+        c.snapshot('t_before', "len(sent('Timer'))")
+        t0 = c.concretize('t_before')
+        c.call((cf, 'send_packet'), pk2, exp)
+        c.ensure('new-request-transmitted-once-on-the-new-link',
+                 "raised is None and len([e for e in sent('link2.send_packet') if is_same(e[1][0], pk2)]) == 1")
+        c.ensure('new-request-has-a-retry-timer', "len(sent('Timer')) == t_before + 1")
+        fire_nth(c, t0)
+        c.ensure('new-request-retransmitted-while-unanswered',
+                 "raised is None and len([e for e in sent('link2.send_packet') if is_same(e[1][0], pk2)]) == 2 and len(sent('Timer')) == t_before + 2")
+        deliver_reply(c, cf, 'bytes(exp)')
+        c.ensure('reply-delivered', 'raised is None')
+        fire_timers(c, t0 + 1, 'new', rounds=1)
+        c.ensure('new-request-not-retransmitted-after-its-answer',
+                 "len([e for e in sent('link2.send_packet') if is_same(e[1][0], pk2)]) == 2 and " + (NOT_ON % 'link2'))
+    return k
+
+
+_reopen_history('session.close-then-open_link', ['close', 'error-then-close'])
+# on the unchanged tree this one FAILS and replays natively (reported): _link_error_cb closes the link but keeps the pending patterns,
+# open_link does not clear them either, so a retry timer that fires after the application reconnected transmits the old request
+_reopen_history('session.link-error-then-open_link', ['error'], thorough_only=True)
+
+
+@contract('C10', 'retry.interval-kept', SEND + [CF + ':Crazyflie._no_answer_do_retry'],
+          clause='an unanswered request is retransmitted at ITS timeout interval: every timer of the retry chain is armed with the timeout the '
+                 'request was sent with (requests of the memory subsystem are sent with timeout=1)',
+          bounded='the first two retransmissions', thorough_only=True)
+def interval_kept(c):
+    # on the unchanged tree this FAILS and replays natively (reported): _no_answer_do_retry does not pass the timeout on, every
+    # retransmission after the first is armed with the default 0.2 s
+    cf, link = fresh_cf(c, True)
+    pk = packet(c)
+    exp = c.ints('exp', 2, 0, 255, kind='tuple')
+    c.float('timeout', finite=True)
+    c.require('timeout > 0.0')
+    c.call((cf, 'send_packet'), pk, exp, False, c.get('timeout'))
+    c.require('raised is None')
+    for i in range(2):
+        fire_nth(c, i)
+        c.ensure('retry-%d-armed-with-the-request-timeout' % i,
+                 "raised is None and len(sent('Timer')) == %d and same_float(float(sent('Timer')[%d][1][0]), float(timeout))" % (i + 2, i + 1))
+
+
+@contract('C10', 'retry.same-request-sent-twice', SEND + [CF + ':Crazyflie._no_answer_do_retry', CF + ':Crazyflie._check_for_answers'],
+          clause='second use: a request sent again while its first transmission is still unanswered (same header and expectation) is still '
+                 'retransmitted while unanswered, and once the reply has arrived NO timer of either transmission retransmits anything',
+          bounded='two sends of one pattern; answered before or after the first round of timers; every timer ever created fires once')
+def sent_twice(c):
+    cf, link = fresh_cf(c, True)
+    pk = packet(c)
+    exp = c.ints('exp', 2, 0, 255, kind='tuple')
+    pk2 = c.new(STK + ':CRTPPacket', c.get('h'), c.bytes('data2', 3))
+    c.let('pk2', pk2)
+    c.call((cf, 'send_packet'), pk, exp)
+    c.require('raised is None')
+    c.call((cf, 'send_packet'), pk2, exp)
+    c.ensure('second-send-transmitted', "raised is None and len(sent('link.send_packet')) == 2")
+    first = 0
+    if c.choice('answered', ['after-one-round', 'at-once']) == 'after-one-round':
+        c.snapshot('tx0', "len(sent('link.send_packet'))")
+        fire_timers(c, 0, 'pending', rounds=1)
+        c.ensure('retransmitted-while-unanswered', "len(sent('link.send_packet')) > tx0 and len(cf._answer_patterns) == 1")
+        first = 2
+    deliver_reply(c, cf, 'bytes(exp) + data2')
+    c.ensure('reply-delivered', 'raised is None')
+    c.snapshot('tx1', "len(sent('link.send_packet'))")
+    fire_timers(c, first, 'late')
+    c.ensure('nothing-retransmitted-after-the-answer', "len(sent('link.send_packet')) == tx1")
+    c.ensure('send-lock-released', 'not cf._send_lock.locked()')
+
+
+@contract('C10', 'answers.longest-prefix.shapes', [CF + ':Crazyflie._check_for_answers'],
+          clause='an incoming packet cancels only the pending request whose pattern is its longest matching prefix - for pending sets of '
+                 'every shape: patterns shorter than, as long as and LONGER than the packet, nested prefixes of each other, no pattern at all',
+          bounded='up to three pending patterns, each of length 2, 3 or 5 (or absent), symbolic bytes; packets with 1 or 3 data bytes')
+def longest_prefix_shapes(c):
+    cf, link = fresh_cf(c, True)
+    lens = [c.choice('len%d' % i, [0, 2, 3, 5]) for i in range(3)]
+    idx = [i for i in range(3) if lens[i]]
+    pats = {i: c.ints('p%d' % i, lens[i], 0, 255, kind='tuple') for i in idx}
+    for i in idx:
+        for j in idx:
+            if i < j and lens[i] == lens[j]:
+                c.require('p%d != p%d' % (i, j))          # keys of one dict
+    timers = {i: c.ext('T%d' % i) for i in idx}
+    c.set(cf, '_answer_patterns', c.dict([(pats[i], timers[i]) for i in idx]))
+    pk = packet(c, c.choice('n_data', [1, 3]))
+    c.snapshot('data', '(pk.header,) + tuple(pk.data)')
+    c.call((cf, '_check_for_answers'), pk)
+    c.ensure('no-exception', 'raised is None')
+    # the longest matching prefix, from the property: among the patterns that are a prefix of the packet, the longest
+    for i in idx:
+        c.let('P', pats[i])
+        c.snapshot('m%d' % i, 'len(data) >= %d and data[:%d] == P' % (lens[i], lens[i]))
+    order = sorted(idx, key=lambda i: -lens[i])
+    win = '-1'
+    for i in reversed(order):
+        win = '(%d if m%d else %s)' % (i, i, win)
+    c.snapshot('win', win)
+    for i in idx:
+        c.ensure('cancelled-iff-longest-match-%d' % i, "iff(len(sent('T%d.cancel')) == 1, win == %d) and len(sent('T%d.cancel')) <= 1" % (i, i, i))
+        c.let('P', pats[i])
+        c.ensure('removed-iff-longest-match-%d' % i, 'iff(P in cf._answer_patterns, win != %d)' % i)
+    c.ensure('nothing-else-touched', 'len(cf._answer_patterns) == %d - (0 if win == -1 else 1) and len(calls("T")) == (0 if win == -1 else 1)' % len(idx))
+
+
+RD = 'cflib.crtp.radiodriver'
+UD = 'cflib.crtp.usbdriver'
+ACK = 'cflib.drivers.crazyradio:_radio_ack'
+
+
+def radio_script(c, name, safelink, after_handshake, then):
+    """radio stub: the safelink handshake is confirmed at once or refused 10 times, then `after_handshake` empty acks, then `then()`"""
+    n = [0]
+    hs = 1 if safelink else 10
+
+    def send(_i, args, _k):
+        n[0] += 1
+        if n[0] <= hs:
+            data = c.snapshot('good', 'bytes([0xff, 0x05, 0x01])') if safelink else ()
+            return c.obj(ACK, ack=True, data=data, powerDet=False, retry=0)
+        if n[0] <= hs + after_handshake:
+            return c.obj(ACK, ack=True, data=(), powerDet=False, retry=0)
+        return then(n[0] - hs - after_handshake)
+    radio = c.ext(name, attrs={'version': 0.5}, returns={'send_packet': send})
+    return radio, hs
+
+
+@contract('C10', 'radio.stopped-thread-transmits-nothing',
+          [RD + ':_RadioDriverThread.stop', RD + ':_RadioDriverThread.run', RD + ':RadioDriver.close', RD + ':RadioDriver.pause', RD + ':RadioDriver.send_packet'],
+          clause='nothing is ever transmitted on a closed link: once the radio link is closed (or paused) its thread puts nothing on the air any '
+                 'more - not the request that was waiting in its queue, not a null packet - and ends',
+          bounded='explicit schedule: close()/pause() is called by another thread while the radio thread is inside its k-th transmission '
+                  '(k = 1 or 2) with a request waiting in the out queue; with and without safelink')
+def stopped_thread(c):
+    c.virtual_time()
+    drv = c.new(RD + ':RadioDriver')
+    c.let('drv', drv)
+    safelink = c.choice('safelink', [False, True])
+    how = c.choice('how', ['close', 'pause'])
+    k = c.choice('k', [1, 2])
+    box = []
+    pk = packet(c)
+
+    def then(j):
+        if j == 1:
+            # another thread: a request is queued, then the link is closed / paused (join of the running thread is recorded)
+            c.invoke((drv, 'send_packet'), pk)
+            c.let('tx_at_stop', c.snapshot('tx_now', "len(sent('radio.send_packet'))"))
+            c.invoke((drv, how))
+            return c.obj(ACK, ack=True, data=(), powerDet=False, retry=0)
+        return c.raiser('StopLoop')()       # a further transmission: recorded, then the run is cut off
+    radio, hs = radio_script(c, 'radio', safelink, k - 1, then)
+    inq, outq = c.queue('inq'), c.queue('outq', maxsize=1)
+    th = c.new(RD + ':_RadioDriverThread', radio, inq, outq, None, c.ext('link_error'), drv, None)
+    c.set(th, '_radio_link_statistics', c.ext('stats'))
+    c.set(drv, '_radio', radio), c.set(drv, 'in_queue', inq), c.set(drv, 'out_queue', outq), c.set(drv, '_thread', th)
+    c.call((th, 'run'))
+    c.ensure('thread-ends', 'raised is None')
+    c.ensure('nothing-on-the-air-after-the-stop', "len(sent('radio.send_packet')) == tx_at_stop")
+    c.ensure('request-was-not-transmitted', "not any(len(e[1][0]) == 4 for e in sent('radio.send_packet')[%d:])" % hs)
+
+
+@contract('C10', 'radio.request-of-a-closed-session-never-on-the-air',
+          [RD + ':RadioDriver.close', RD + ':RadioDriver.connect', RD + ':RadioDriver.send_packet', RD + ':_RadioDriverThread.run',
+           RD + ':_RadioDriverThread.stop'],
+          clause='a request from one session is never transmitted in a later session and nothing is transmitted on a closed link, at the radio '
+                 'link itself: a request still waiting in the out queue when the link is closed, and a request handed to the link after it was '
+                 'closed, are not put on the air when the same driver object is connected again',
+          bounded='one request queued before and one after close(); the next session of the same RadioDriver transmits 3 packets after its handshake')
+def closed_session_requests(c):
+    c.virtual_time()
+    drv = c.new(RD + ':RadioDriver')
+    c.let('drv', drv)
+    safelink = c.choice('safelink_in_the_next_session', [False, True])
+    radio1 = c.ext('radio1', attrs={'version': 0.5})
+    inq, outq = c.queue('inq'), c.queue('outq', maxsize=1)
+    th1 = c.new(RD + ':_RadioDriverThread', radio1, inq, outq, None, c.ext('link_error'), drv, None)
+    c.set(drv, '_radio', radio1), c.set(drv, 'in_queue', inq), c.set(drv, 'out_queue', outq), c.set(drv, '_thread', th1)
+    c.set(drv, 'link_error_callback', c.ext('link_error'))
+    pk = packet(c)
+    c.int('h2', 0, 255)
+    pk2 = c.new(STK + ':CRTPPacket', c.get('h2'), c.bytes('data2', 3))
+    c.call((drv, 'send_packet'), pk)                # waits in the queue: the radio thread has not taken it yet
+    c.require('raised is None')
+    c.call((drv, 'close'))
+    c.ensure('closed', "raised is None and len(sent('radio1.close')) == 1")
+    c.call((drv, 'send_packet'), pk2)               # a late sender on the closed link
+    c.ensure('closed-link-transmits-nothing', "len(sent('radio1.send_packet')) == 0")
+    # the same driver object is connected again
+    radio2, hs = radio_script(c, 'radio2', safelink, 3, lambda j: c.raiser('StopLoop')())
+    c.patch(RD + ':RadioManager', c.ext('RadioManager', returns={'open': lambda *_a: radio2}))
+    c.call((drv, 'connect'), URI2, None, c.ext('link_error2'))
+    c.ensure('connected-again', 'raised is None and drv._thread is not None')
+    c.call((c.getfield(drv, '_thread'), 'run'))
+    c.ensure('next-session-ran', "raised == 'StopLoop' and len(sent('radio2.send_packet')) == %d" % (hs + 4))
+    c.ensure('only-null-packets-on-the-air', "all(len(e[1][0]) == 1 for e in sent('radio2.send_packet')[%d:])" % hs)
+
+
+@contract('C10', 'radio.restart-renegotiates-reliability',
+          [RD + ':RadioDriver.pause', RD + ':RadioDriver.restart', RD + ':_RadioDriverThread.run', RD + ':_RadioDriverThread.stop'],
+          clause='whether requests are retried follows the link as it is NOW: after pause() + restart() of a radio link (warm boot into the '
+                 'bootloader and back) the new radio thread negotiates safelink again and the driver needs retries iff the peer did not confirm; '
+                 'a second restart() does not start a second transmitter',
+          bounded='one pause/restart cycle, every combination of (confirmed, not confirmed) before and after')
+def restart_renegotiates(c):
+    c.virtual_time()
+    drv = c.new(RD + ':RadioDriver')
+    c.let('drv', drv)
+    before = c.choice('safelink_before', [True, False])
+    after = c.choice('safelink_after', [True, False])
+    stop = lambda j: c.raiser('StopLoop')()
+    radio, hs1 = radio_script(c, 'radio', before, 0, stop)
+    inq, outq = c.queue('inq'), c.queue('outq', maxsize=1)
+    th1 = c.new(RD + ':_RadioDriverThread', radio, inq, outq, None, c.ext('link_error'), drv, None)
+    c.set(th1, '_radio_link_statistics', c.ext('stats'))
+    c.set(drv, '_radio', radio), c.set(drv, 'in_queue', inq), c.set(drv, 'out_queue', outq), c.set(drv, '_thread', th1)
+    c.call((th1, 'run'))
+    c.let('before', before), c.let('after', after)
+    c.ensure('first-negotiation', "raised == 'StopLoop' and drv.needs_resending is (not before)")
+    c.call((drv, 'pause'))
+    c.ensure('paused', 'raised is None')
+    c.let('th1', th1)
+    radio2, hs2 = radio_script(c, 'radio_b', after, 0, stop)
+    c.set(drv, '_radio', radio2)
+    c.call((drv, 'restart'))
+    c.ensure('restarted', "raised is None and drv._thread is not None and not is_same(drv._thread, th1)")
+    th2 = c.getfield(drv, '_thread')
+    c.let('th2', th2)
+    c.call((drv, 'restart'))
+    c.ensure('second-restart-keeps-the-one-thread', 'raised is None and is_same(drv._thread, th2)')
+    c.set(th2, '_radio_link_statistics', c.ext('stats2'))
+    c.call((th2, 'run'))
+    c.ensure('second-negotiation-decides', "raised == 'StopLoop' and drv.needs_resending is (not after)")
+
+
+@contract('C10', 'usb.closed-link-transmits-nothing',
+          [UD + ':UsbDriver.send_packet', UD + ':UsbDriver.close', UD + ':UsbDriver.pause', UD + ':UsbDriver.restart',
+           UD + ':_UsbReceiveThread.__init__', UD + ':_UsbReceiveThread.stop'],
+          clause='nothing is ever transmitted on a closed link (USB): an open USB link hands each packet to the device exactly once (no '
+                 'retransmission of its own), and after close() - also when the device was unplugged and closing it fails - nothing is handed '
+                 'to the device any more; pause()/restart() of the receive thread do not close the link',
+          bounded='packets with 3 data bytes; one send before and one after each step')
+def usb_closed(c):
+    c.virtual_time()
+    drv = c.new(UD + ':UsbDriver')
+    c.let('drv', drv)
+    unplugged = c.choice('unplugged', [False, True])
+    paused_first = c.choice('paused_and_restarted_first', [False, True])
+    ret = {'set_crtp_to_usb': c.raiser('OSError', 'no device')} if unplugged else {}
+    cfusb = c.ext('cfusb', returns=ret)
+    inq = c.queue('inq')
+    th = c.new(UD + ':_UsbReceiveThread', cfusb, inq, None, c.ext('link_error'))
+    c.set(drv, 'cfusb', cfusb), c.set(drv, 'in_queue', inq), c.set(drv, '_thread', th)
+    pk = packet(c)
+    c.snapshot('wire', '(pk.header,) + tuple(pk.data)')
+    c.call((drv, 'send_packet'), pk)
+    c.ensure('open-link-transmits-once', "raised is None and len(sent('cfusb.send_packet')) == 1 and tuple(sent('cfusb.send_packet')[0][1][0]) == wire")
+    if paused_first:
+        c.call((drv, 'pause'))
+        c.ensure('paused', 'raised is None')
+        c.call((drv, 'send_packet'), pk)
+        c.ensure('paused-link-is-still-open', "raised is None and len(sent('cfusb.send_packet')) == 2")
+        c.call((drv, 'restart'))
+        c.ensure('restarted', 'raised is None and drv._thread is not None')
+    c.snapshot('tx', "len(sent('cfusb.send_packet'))")
+    c.call((drv, 'close'))
+    c.ensure('close-does-not-raise', 'raised is None')
+    c.call((drv, 'send_packet'), pk)
+    c.ensure('closed-link-transmits-nothing', "len(sent('cfusb.send_packet')) == tx")
+
+
+@contract('C10', 'radio.closed-instance-commands-nothing',
+          [RD + ':_SharedRadioInstance.close', RD + ':_SharedRadioInstance.send_packet', RD + ':_SharedRadioInstance.set_arc',
+           RD + ':_SharedRadioInstance.scan_selected', RD + ':_SharedRadioInstance.scan_channels'],
+          clause='nothing is ever transmitted on a closed link, at the shared dongle: once a link\'s radio instance is closed, none of its '
+                 'operations that make the dongle transmit (send_packet, scan_selected, scan_channels) nor set_arc reaches the dongle thread\'s '
+                 'command queue any more; before that each reaches it exactly once',
+          bounded='one operation before and one after close(); payload of 3 bytes')
+def closed_instance(c):
+    cmdq = c.queue('cmdq')
+    rspq = c.queue('rspq', ['ack-1', 'ack-2'])
+    inst = c.new(RD + ':_SharedRadioInstance', 7, cmdq, rspq, 0.5)
+    c.let('inst', inst)
+    op = c.choice('op', ['send_packet', 'set_arc', 'scan_selected', 'scan_channels'])
+    payload = c.ints('payload', 3, 0, 255, kind='tuple')
+    args = {'send_packet': (payload,), 'set_arc': (3,), 'scan_selected': ((), payload), 'scan_channels': (0, 125, payload)}[op]
+    c.call((inst, op), *args)
+    c.ensure('open-instance-commands-once', 'raised is None and cmdq.qsize() == 1 and cmdq.queue[0][0] == 7')
+    c.call((inst, 'close'))
+    c.ensure('close-tells-the-dongle-thread-once', 'raised is None and cmdq.qsize() == 2')
+    c.call((inst, op), *args)
+    c.ensure('closed-instance-commands-nothing', 'cmdq.qsize() == 2')
+
+
+@contract('C10', 'retry.reply-before-send-returns', SEND + [CF + ':Crazyflie._check_for_answers', CF + ':Crazyflie._no_answer_do_retry'],
+          clause='all reply delays relative to the retry timers, the shortest one included: a reply that the dispatcher thread handles before '
+                 'the transmitting call has even returned still counts as the answer - the request is not retransmitted after it',
+          bounded='explicit schedule: the reply is dispatched from inside link.send_packet of the first transmission or of the first '
+                  'retransmission; afterwards every timer created so far fires (2 rounds)')
+def reply_before_send_returns(c):
+    c.use_stubs(CF, ['Timer'])
+    cf = c.new(CF + ':Crazyflie')
+    c.let('cf', cf)
+    pk = packet(c)
+    exp = c.ints('exp', 2, 0, 255, kind='tuple')
+    tail = c.bytes('tail', c.choice('tail_len', [0, 1]))
+    during = c.choice('reply_during', ['first-transmission', 'first-retransmission'])
+    n = [0]
+
+    def send(_i, args, _k):
+        n[0] += 1
+        if n[0] == (1 if during == 'first-transmission' else 2):
+            reply = c.new(STK + ':CRTPPacket', c.get('h'), c.snapshot('rdata', 'bytes(exp) + tail'))
+            c.invoke((c.getfield(cf, 'packet_received'), 'call'), reply)
+        return None
+    c.set(cf, 'link', c.ext('link', attrs={'needs_resending': True}, returns={'send_packet': send}))
+    c.reset_trace()
+    c.call((cf, 'send_packet'), pk, exp)
+    c.ensure('sent', "raised is None and len(sent('link.send_packet')) == 1")
+    first = 0
+    if during == 'first-retransmission':
+        fire_nth(c, 0)
+        c.ensure('retransmitted-while-unanswered', "raised is None and len(sent('link.send_packet')) == 2")
+        first = 1
+    c.snapshot('tx', "len(sent('link.send_packet'))")
+    fire_timers(c, first, 'late')
+    c.ensure('not-retransmitted-after-the-early-reply', "len(sent('link.send_packet')) == tx")
+    c.ensure('send-lock-released', 'not cf._send_lock.locked()')
+
+
+@contract('C10', 'send.reliability-read-at-send-time', SEND + [CF + ':Crazyflie.open_link'],
+          clause='whether a request is retried follows what the link says when the request is SENT (the radio link learns only after the '
+                 'safelink negotiation, i.e. after open_link returned, whether it guarantees delivery): no timer on a link that guarantees '
+                 'delivery by then, a timer on a link that does not',
+          bounded='one session opened through the real open_link; the link changes its needs_resending once before the request')
+def reliability_at_send_time(c):
+    cf, link = fresh_cf_vt(c, True)
+    at_open = c.choice('needs_resending_at_open', [True, False])
+    now = c.choice('needs_resending_at_send', [True, False])
+    c.set(cf, 'link', None)
+    link2 = reopen(c, cf, at_open)
+    c.set(link2, 'needs_resending', now)
+    c.let('now', now)
+    pk = packet(c)
+    exp = c.ints('exp', 2, 0, 255, kind='tuple')
+    c.snapshot('t0', "len(sent('Timer'))")
+    c.call((cf, 'send_packet'), pk, exp)
+    c.ensure('transmitted-once', "raised is None and len([e for e in sent('link2.send_packet') if is_same(e[1][0], pk)]) == 1")
+    c.ensure('timer-iff-link-does-not-guarantee-delivery-now', "len(sent('Timer')) == t0 + (1 if now else 0)")
+
+
+@contract('C10', 'retry.reply-while-the-timer-thread-re-arms', SEND + [CF + ':Crazyflie._check_for_answers', CF + ':Crazyflie._no_answer_do_retry'],
+          clause='all reply delays relative to the retry timers: a reply that the dispatcher thread handles while the timer thread of the same '
+                 'request is inside send_packet (it has found the request pending and is about to re-arm) must leave the library able to send: '
+                 'the timer thread ends normally with the send lock released, and a later request is still transmitted',
+          bounded='explicit schedule: the reply is dispatched when the timer thread is inside the logging call between its pending test and '
+                  'the re-arming (a thread switch is possible there); if the dispatcher cannot run there (it would wait for a lock) it runs '
+                  'right after the timer thread', thorough_only=True)
+def reply_while_rearming(c):
+    # on the unchanged tree this FAILS and replays natively (reported): the pattern is deleted between `pattern in self._answer_patterns`
+    # and `self._answer_patterns[pattern]`; the KeyError leaves _send_lock held for ever, every later send_packet blocks
+    cf, link = fresh_cf(c, True)
+    pk = packet(c)
+    exp = c.ints('exp', 2, 0, 255, kind='tuple')
+    c.call((cf, 'send_packet'), pk, exp)
+    c.require('raised is None')
+    c.snapshot('fire', "sent('Timer')[0][1][1]")
+    reply = c.new(STK + ':CRTPPacket', c.get('h'), c.snapshot('rdata', 'bytes(exp)'))
+    state = []
+
+    def log(_i, args, _k):
+        if not state and lk.held is True:
+            # the timer thread is inside the locked region; the dispatcher thread handles the reply now
+            state.append('running')
+            state[0] = c.invoke_catch((c.getfield(cf, 'packet_received'), 'call'), reply)
+        return None
+    lk = c.lock('send_lock')
+    c.set(cf, '_send_lock', lk)
+    c.patch(CF + ':logger', c.ext('logger', returns={'debug': log, 'info': log}))
+    c.reset_trace()
+    c.call(c.get('fire'))
+    c.let('scheduled', bool(state))
+    c.ensure('schedule-ran', 'scheduled')
+    c.snapshot('timer_raised', 'raised')
+    if state and state[0] == 'Deadlock':
+        c.call((c.getfield(cf, 'packet_received'), 'call'), reply)     # the dispatcher had to wait: it runs now
+    c.ensure('timer-thread-ends-normally', 'timer_raised is None')
+    c.ensure('send-lock-released', 'not cf._send_lock.locked()')
+    pk2 = c.new(STK + ':CRTPPacket', c.get('h'), c.bytes('data2', 1))
+    c.let('pk2', pk2)
+    c.call((cf, 'send_packet'), pk2)
+    c.ensure('later-request-still-transmitted', "raised is None and len([e for e in sent('link.send_packet') if is_same(e[1][0], pk2)]) == 1")
+
+
+@contract('C10', 'send.link-error-while-sending', SEND + [CF + ':Crazyflie._link_error_cb', CF + ':Crazyflie.open_link'],
+          clause='all close times relative to a request: a link error that the link\'s own thread reports while another thread is inside '
+                 'send_packet (after it has seen the link open, before it hands the packet over) must leave the library able to send: the '
+                 'call ends normally with the send lock released, nothing goes to the closed link, and a request of the next session is '
+                 'transmitted on the new link',
+          bounded='explicit schedule: _link_error_cb runs when the sending thread is inside the logging call of the locked region (first '
+                  'transmission with an expected reply) - a thread switch is possible there', thorough_only=True)
+def link_error_while_sending(c):
+    # on the unchanged tree this FAILS and replays natively (reported): `self.link.send_packet(pk)` hits None, the AttributeError
+    # leaves _send_lock held for ever; every later send_packet - also in the next session - blocks
+    cf, link = fresh_cf_vt(c, True)
+    pk = packet(c)
+    exp = c.ints('exp', 2, 0, 255, kind='tuple')
+    c.set(cf, 'state', c.choice('state', [1, 2]))
+    state = []
+
+    def log(_i, args, _k):
+        if not state and lk.held is True:
+            state.append('running')
+            state[0] = c.invoke_catch((cf, '_link_error_cb'), 'Too many packets lost')
+        return None
+    lk = c.lock('send_lock')
+    c.set(cf, '_send_lock', lk)
+    c.patch(CF + ':logger', c.ext('logger', returns={'debug': log, 'info': log}))
+    c.call((cf, 'send_packet'), pk, exp)
+    c.let('scheduled', bool(state))
+    c.snapshot('sender_raised', 'raised')
+    if state and state[0] == 'Deadlock':
+        c.call((cf, '_link_error_cb'), 'Too many packets lost')       # the reporting thread had to wait for a lock: it runs now
+    c.ensure('schedule-ran', 'scheduled and cf.link is None')
+    c.ensure('sender-ends-normally', 'sender_raised is None')
+    c.ensure('send-lock-released', 'not cf._send_lock.locked()')
+    c.ensure('nothing-to-the-closed-link', "'link.close' in calls('link') and 'link.send_packet' not in calls('link')[calls('link').index('link.close'):]")
+    reopen(c, cf)
+    pk2 = c.new(STK + ':CRTPPacket', c.get('h'), c.bytes('data2', 1))
+    c.let('pk2', pk2)
+    c.call((cf, 'send_packet'), pk2)
+    c.ensure('next-session-can-send', "raised is None and len([e for e in sent('link2.send_packet') if is_same(e[1][0], pk2)]) == 1")
+
+
+@contract('C10', 'retry.chain-inductive', SEND + [CF + ':Crazyflie._no_answer_do_retry'],
+          clause='an unanswered request is retransmitted at EVERY firing of its timer, for any number of firings (induction over the retry '
+                 'chain): base - the timer of the first transmission is armed with "retry this packet for this pattern"; step - from any '
+                 'state in which the pattern is pending, a retry transmits the same packet once and arms, under the same pattern, a new '
+                 'started timer that is again "retry this packet for this pattern"')
+def chain_inductive(c):
+    cf, link = fresh_cf(c, True)
+    pk = packet(c)
+    stage = c.choice('stage', ['first-transmission', 'any-retry'])
+    if stage == 'first-transmission':
+        exp = c.ints('exp', c.choice('n_expected', [1, 2]), 0, 255, kind='tuple')
+        c.snapshot('pattern', '(pk.header,) + exp')
+        c.call((cf, 'send_packet'), pk, exp)
+    else:
+        c.let('pattern', c.ints('pat', c.choice('pattern_len', [2, 3]), 0, 255, kind='tuple'))
+        other = c.ints('other', 2, 0, 255, kind='tuple')
+        c.require('other != pattern')
+        c.set(cf, '_answer_patterns', c.dict([(other, c.ext('T_other')), (c.get('pattern'), c.ext('T_fired'))]))
+        c.call((cf, '_no_answer_do_retry'), pk, c.get('pattern'))
+    c.ensure('transmitted-once', "raised is None and len(sent('link.send_packet')) == 1 and is_same(sent('link.send_packet')[0][1][0], pk)")
+    c.ensure('one-new-started-timer-under-the-pattern', "len(sent('Timer')) == 1 and calls('timer') == ('timer!0.start',) and "
+             "any(list(cf._answer_patterns.keys())[i] == pattern and is_same(list(cf._answer_patterns.values())[i], sent('Timer')[0][2]['timer']) "
+             "for i in range(len(cf._answer_patterns)))")
+    c.ensure('other-pending-requests-untouched', "len(calls('T_other')) == 0 and len(calls('T_fired')) == 0")
+    c.snapshot('fire', "sent('Timer')[0][1][1]")
+    rec = c.ext('next_retry')
+    c.set(cf, '_no_answer_do_retry', rec)
+    c.call(c.get('fire'))
+    c.ensure('new-timer-is-again-retry-this-packet-for-this-pattern',
+             "raised is None and len(sent('next_retry')) == 1 and len(sent('next_retry')[0][1]) + len(sent('next_retry')[0][2]) >= 2 and "
+             "is_same((list(sent('next_retry')[0][1]) + [sent('next_retry')[0][2].get('pk')])[0], pk) and "
+             "(list(sent('next_retry')[0][1])[1:] + [sent('next_retry')[0][2].get('pattern')])[0] == pattern")
+
+
+N_LONG = 40
+
+
+@contract('C10', 'retry.long-chain', SEND + [CF + ':Crazyflie._no_answer_do_retry'],
+          clause='for as long as the link is open and no reply has arrived the request keeps being retransmitted: no firing of the chain '
+                 'gives up (state that accumulates on the Crazyflie object over the retries is not seen by the inductive step above)',
+          bounded='%d successive firings, one request pending' % N_LONG)
+def long_chain(c):
+    cf, link = fresh_cf(c, True)
+    pk = packet(c)
+    exp = c.ints('exp', 2, 0, 255, kind='tuple')
+    c.call((cf, 'send_packet'), pk, exp)
+    c.require('raised is None')
+    for i in range(N_LONG):
+        if not fire_nth(c, i):
+            break               # the chain ended: the obligations below fail
+    c.ensure('retransmitted-at-every-firing', "raised is None and len(sent('link.send_packet')) == %d and "
+             "all(is_same(e[1][0], pk) for e in sent('link.send_packet'))" % (N_LONG + 1))
+    c.ensure('still-pending-with-a-started-timer', "len(sent('Timer')) == %d and len(cf._answer_patterns) == 1 and "
+             "is_same(list(cf._answer_patterns.values())[0], sent('Timer')[-1][2]['timer']) and calls('timer')[-1] == 'timer!%d.start'" % (N_LONG + 1, N_LONG))
+    c.ensure('send-lock-released', 'not cf._send_lock.locked()')
